@@ -75,6 +75,10 @@ def cases(tier, seed):
                 for con in CONSTRAINTS:
                     for load in ("none", "constant"):
                         out.append({"kind": "newton", "system": system, "constraint": con, "load": load, "l1": i})
+    # every hyperbolic letter once more with the scheme named by the VALUE of the AlgoType member (a plain string)
+    for i, L in enumerate(letters("elastic")):
+        out.append({"kind": "step1", "system": "elastic", "damping": DAMPINGS["elastic"][0], "constraint": CONSTRAINTS[0], "load": "constant",
+                    "l1": i, "spelling": "str"})
     # alpha = 0 of the parabolic scheme (documented as Forward Euler)
     for con in CONSTRAINTS:
         for load in ("none", "constant"):
@@ -155,6 +159,9 @@ def set_algo(simu, L):
     a, p, dt = L["algo"], L["params"], L["dt"]
     if a == "parabolic":
         simu.Solver_Set_Parabolic_Algorithm(dt, p["alpha"])
+    elif L.get("spelling") == "str":
+        # AlgoType is a str-valued Enum and the setter validates with `algo in types`: the member's VALUE is an accepted spelling
+        simu.Solver_Set_Hyperbolic_Algorithm(dt, str(AlgoType[a].value), **p)
     else:
         simu.Solver_Set_Hyperbolic_Algorithm(dt, AlgoType[a], **p)
 
@@ -429,13 +436,15 @@ def _run_hyper(case):
 
 
 def _cfgkey(case):
-    return {k: case[k] for k in ("system", "damping", "constraint", "load") if k in case}
+    return {k: case[k] for k in ("system", "damping", "constraint", "load", "spelling") if k in case}
 
 
 def _run_step1(case):
     system = case["system"]
     Ls = letters(system)
     L = Ls[case["l1"]]
+    if case.get("spelling"):
+        L = dict(L, spelling=case["spelling"])
     simu = make_simu(system, case["damping"])
     apply_bc(simu, system, case["constraint"], case["load"])
     sysd = dense_system(simu)
